@@ -274,6 +274,19 @@ def cases():
         Chef(P, recipe=RECIPE, outfile="res/cooked", serial=True).cook()
     add("chef/unreadable-input", {"plt00010": "plt00010"}, chef_no_header, [os.path.join("res/cooked")])
 
+    # ---- a SECOND run with the default output, when the first run's output already exists (a tool that numbers or replaces an
+    #      existing default output derives the new name once more -- from whatever spelling of the input it still has)
+    def twice(fn):
+        def run2(work):
+            fn(work)
+            os.chdir(work)
+            fn(work)
+        return run2
+    for label, inputs, fn, allowed, prep in list(out):
+        if "/default" in label or label.startswith("marinate/"):
+            add(label.replace("/default", "/default-twice") if "/default" in label else label.replace("marinate/", "marinate-twice/"),
+                inputs, twice(fn), allowed, prep)
+
     # ---- inputs the tool cannot read, by KIND of damage (done by `prepare` before the run is observed): a binary file cut short
     #      inside the data of its last FAB (all but two values of it gone: every field of that box is short), cut by one value
     #      (tools that read every field), a missing binary file, a missing level header, a global header cut in half
@@ -499,6 +512,8 @@ def run(chk, replay):
             # every open-for-write is a distinct kind of point; sample the writes
             step = max(1, len(ks) // 14)
             ks = sorted(set(ks[::step] + ks[:3] + ks[-3:]))
+        if quick and "twice" in case[0]:
+            ks = ks[::max(1, len(ks) // 4)][:4]        # the second run's write points are the first run's again: a few faults do
         if replay and replay["scenario"].get("fault_at"):
             ks = [] if replay["scenario"].get("late") else [replay["scenario"]["fault_at"]]
         for k in ks:
@@ -514,6 +529,8 @@ def run(chk, replay):
         lks = sorted(set(first.values()) | set(last.values()))
         if quick and len(lks) > 8:
             lks = sorted(set(lks[::max(1, len(lks) // 8)] + lks[-2:]))
+        if quick and "twice" in case[0]:
+            lks = lks[-2:]
         if replay and replay["scenario"].get("fault_at"):
             lks = [replay["scenario"]["fault_at"]] if replay["scenario"].get("late") else []
         for k in lks:
